@@ -114,7 +114,11 @@ impl Op {
     }
 }
 
-struct ChanSt { tx: mpsc::Sender<String>, rx: Option<mpsc::Receiver<String>> }
+thread_local! { static CLOSE_TOGGLE: std::cell::Cell<bool> = const { std::cell::Cell::new(true) }; }
+
+/// `closed`: a receiver that was closed with `Receiver::close()` and is kept alive (its buffered events
+/// are NOT drained, unlike a dropped receiver): the channel is closed and may still be full
+struct ChanSt { tx: mpsc::Sender<String>, rx: Option<mpsc::Receiver<String>>, closed: Option<mpsc::Receiver<String>> }
 
 /// Run one hub call of task `t` on the real hub (single poll), emitting its events.
 fn do_hub_call(hub: &SubscriptionHub, chans: &mut HashMap<i64, ChanSt>, t: i64, op: &Op, blocking: bool) {
@@ -171,7 +175,7 @@ fn do_chan_op(chans: &mut HashMap<i64, ChanSt>, op: &Op) {
         Op::Chan(c, cap) => {
             if !chans.contains_key(c) {
                 let (tx, rx) = mpsc::channel::<String>(std::cmp::max(1, *cap) as usize);
-                chans.insert(*c, ChanSt { tx, rx: Some(rx) });
+                chans.insert(*c, ChanSt { tx, rx: Some(rx), closed: None });
             }
         }
         Op::Recv(c) => {
@@ -189,8 +193,16 @@ fn do_chan_op(chans: &mut HashMap<i64, ChanSt>, op: &Op) {
         }
         Op::Close(c) => {
             match chans.get_mut(c) {
-                Some(ch) => { ch.rx = None; }
-                None => { let (tx, _rx) = mpsc::channel::<String>(1); chans.insert(*c, ChanSt { tx, rx: None }); }
+                Some(ch) => {
+                    // half of the closes keep the receiver object alive after close() (a client task that
+                    // stopped reading but has not been torn down yet): backlog stays, channel is closed
+                    let keep = CLOSE_TOGGLE.with(|t| { let v = t.get(); t.set(!v); v });
+                    match ch.rx.take() {
+                        Some(mut rx) if keep => { rx.close(); ch.closed = Some(rx); }
+                        _ => {}
+                    }
+                }
+                None => { let (tx, _rx) = mpsc::channel::<String>(1); chans.insert(*c, ChanSt { tx, rx: None, closed: None }); }
             }
             emit(format!("EClose {}", z(*c)));
         }
@@ -231,6 +243,7 @@ fn gen_calls(rng: &mut Rng, len: usize) -> Vec<(i64, Op)> {
 }
 
 fn run_seq_case(calls: &[(i64, Op)]) -> String {
+    CLOSE_TOGGLE.with(|t| t.set(true));
     let hub = SubscriptionHub::new();
     let mut chans: HashMap<i64, ChanSt> = HashMap::new();
     let _ = take_log();
@@ -273,6 +286,10 @@ fn fixed_scenarios() -> Vec<Vec<(i64, Op)>> {
     v.push(vec![(0, Op::Chan(1, 2)), (0, Op::Chan(2, 2)), (0, Op::Sub(0, 1)), (0, Op::Sub(1, 1)), (0, Op::Sub(0, 2)),
         (2, Op::Close(1)), (1, Op::Pub(1, 1)), (0, Op::Len), (1, Op::Pub(0, 2)), (0, Op::Len), (2, Op::Recv(2)),
         (0, Op::Unsub(2)), (1, Op::Pub(0, 3)), (2, Op::Recv(2)), (0, Op::Len), (0, Op::Unsub(2))]);
+    // a client that stopped reading with a full backlog and then closed its receiver (kept alive, not
+    // dropped): the next publish on its topic must still find it closed and prune it
+    v.push(vec![(0, Op::Chan(1, 1)), (0, Op::Chan(2, 4)), (0, Op::Sub(0, 1)), (0, Op::Sub(0, 2)), (1, Op::Pub(0, 1)),
+        (2, Op::Close(1)), (1, Op::Pub(0, 2)), (0, Op::Len), (1, Op::Pub(0, 3)), (0, Op::Len), (2, Op::Recv(2)), (2, Op::Recv(2))]);
     // the production capacity (128) overrun by a stalled client
     let mut c = vec![(0, Op::Chan(1, 128)), (0, Op::Sub(0, 1))];
     for d in 1..=131 { c.push((1, Op::Pub(0, d))); }
